@@ -16,7 +16,9 @@ trap cleanup EXIT
 git -C /repo worktree add --detach "$WT" HEAD >/dev/null 2>&1 || exit 2
 git -C "$WT" apply "$SRC/patch.diff" || { echo "patch does not apply" >&2; exit 2; }
 mkdir -p "$VR"
-rsync -a --exclude bin --exclude evidence --exclude replay --exclude seeded --exclude .git "${SEEDED_SRC:-/verif}/" "$VR/"
+# source of the harness: $SEEDED_SRC, else a frozen copy if one was prepared, else /verif itself
+SRC_DIR="${SEEDED_SRC:-}"; [ -n "$SRC_DIR" ] || { [ -d /tmp/seedrun/frozen-default ] && SRC_DIR=/tmp/seedrun/frozen-default || SRC_DIR=/verif; }
+rsync -a --exclude bin --exclude evidence --exclude replay --exclude seeded --exclude .git "$SRC_DIR/" "$VR/"
 sed -i "s#=> /repo#=> $WT#" "$VR/harness/go.mod"
 grep -q "$WT" "$VR/harness/go.mod" || { echo "replace not rewritten" >&2; exit 2; }
 export GOFLAGS=-mod=mod GOPROXY=off GOSUMDB=off GOTOOLCHAIN=local
